@@ -388,6 +388,62 @@ def registry_layer(ctx):
     return len(hists)
 
 
+# ---- base queries over the alternate schema of C04 (foreign key on a non-primary-key column, manager `rows`, reverse one-to-one)
+def alt_bases(bk, M, R):
+    """-> [(name, query, keep(db, j) -> bool, ordered ids or None)] over Item"""
+    has_node = lambda db, j: db["items"][j][1] is not None          # noqa
+    i1 = lambda db, j: db["items"][j][0] == "i1"                     # noqa
+    every = lambda db, j: True                                       # noqa
+    Item, Node = R["Item"], R["Node"]
+    if bk == "django":
+        return [("plain", M.Item.rows.all(), every), ("where", M.Item.rows.filter(name="i1"), i1),
+                ("select-related", M.Item.rows.select_related("node"), every), ("filter-node", M.Item.rows.filter(node__isnull=False), has_node),
+                ("exclude", M.Item.rows.exclude(name="i1"), lambda db, j: not i1(db, j)), ("ordered", M.Item.rows.order_by("-id"), every)]
+    mk = (lambda: session().query(Item)) if bk == "sa-query" else (lambda: sa.select(Item))
+    return [("plain", mk(), every), ("where", mk().where(Item.name == "i1"), i1), ("join-node", mk().join(Item.node), has_node),
+            ("outerjoin-node", mk().outerjoin(Item.node), every), ("join-node-where", mk().join(Item.node).where(Node.code != "zz"), has_node),
+            ("ordered", mk().order_by(Item.id.desc()), every)]
+
+
+def _alt_bases_unit(dbs):
+    from checks import C04
+    django_h.setup()
+    acc = Acc()
+    for db in dbs:
+        M, R = C04._alt_load(db)
+        acc.count("states")
+        for bk in ("django", "sa-select", "sa-query"):
+            for bname, q, keep in alt_bases(bk, M, R):
+                for text, pred in C04.ALT_FILTERS["Item"].items():
+                    want = [j + 1 for j in range(2) if keep(db, j) and pred(db, j)]
+                    if bname == "ordered":
+                        want = want[::-1]
+                    acc.count("executions")
+                    acc.count("transitions")
+                    try:
+                        if bk == "django":
+                            from odata_query.django import apply_odata_query
+                            got = list(apply_odata_query(q, text).values_list("id", flat=True))
+                        else:
+                            from odata_query.sqlalchemy import apply_odata_query
+                            q2 = apply_odata_query(q, text)
+                            got = [r.id for r in (q2.all() if bk == "sa-query" else session().execute(q2).scalars())]
+                        if bname != "ordered":
+                            got = sorted(got)
+                    except Exception as e:  # noqa
+                        if bk != "django":
+                            session().rollback()
+                        got = ("EXC", type(e).__name__, str(e)[:160].replace("\n", " "))
+                    if got != want:
+                        kind = "exc:" + got[1] if isinstance(got, tuple) else "rows"
+                        acc.violation("alt-bases:%s:%s:%s" % (bk, bname, kind),
+                                      {"layer": "alt-bases", "backend": bk, "base": bname, "filter": text, "db": {"items": db["items"], "extras": list(db["extras"])},
+                                       "expected": want, "observed": list(got) if isinstance(got, tuple) else got})
+                    else:
+                        acc.outcome(("alt-bases", bk, bname, len(want)))
+    return acc
+
+
 def run(ctx):
     django_h.setup()
     inst = RL.small_instances()
@@ -403,6 +459,11 @@ def run(ctx):
     ctx.pmap(_unit, units)
     ctx.layer("queries", instances=len(chosen) + 1, of=len(inst) + 1, filters=len(FILTERS), exhaustive=not ctx.quick,
               bases={"sa-select": 13, "sa-query": 13, "sa-core": 3, "django": 12})
+    from checks import C04
+    alt = C04.alt_instances()
+    ctx.pmap(_alt_bases_unit, [alt[i::32] for i in range(32)])
+    ctx.layer("alternate-schema-bases", instances=len(alt), filters=len(C04.ALT_FILTERS["Item"]), bases=6, backends=3, exhaustive=True,
+              note="Item queries (plain, filtered, joined / outer-joined on the filter's own relationship, ordered) over the schema whose foreign key references a non-primary-key column")
     n = registry_layer(ctx)
     ctx.layer("registry", histories=n, names=EXT_NAMES, exhaustive=not ctx.quick)
     ns = registry_sweep(ctx)
@@ -412,6 +473,10 @@ def run(ctx):
 
 def replay(ctx, case):
     django_h.setup()
+    if case.get("layer") == "alt-bases":
+        acc = _alt_bases_unit([{"items": [tuple(x) for x in case["db"]["items"]], "extras": tuple(case["db"]["extras"])}])
+        mine = [v for v in acc.violations if all(v["case"][k] == case[k] for k in ("backend", "base", "filter"))]
+        return {"violations": mine, "ok": not mine}
     if case.get("layer") == "registry-sweep":
         base = run_sweep("never")["use"].get(case["key"])
         res = run_sweep(case["mode"])[case["phase"]].get(case["key"])
